@@ -5,6 +5,7 @@
 From Coq Require Import List NArith Bool Lia.
 From Verif Require Import Chain.Model Chain.Proofs Chain.ProofsWalk Chain.ProofsSys Chain.ProofsTx Chain.ProofsHeads Chain.Examples.
 From Verif Require Bft.Model Bft.ProofsNode Chain.TipRule.
+From Verif Require Compose.TipRefine.
 Import ListNotations.
 Open Scope N_scope.
 
@@ -171,6 +172,93 @@ Proof.
   eapply (sys_read _ _ _ ex_r4 (bid 2 2) _ [(bid 3 1, false)]); [exact S3 | vm_compute; reflexivity | vm_compute; reflexivity].
 Qed.
 
+(* composition *)
+(* 7. C14 <-> C04: the link left informal in 6, closed for import histories (coq/Compose/TipRefine.v).  The two models encode ids
+      differently (Bft: number * 2^32 + rank; Chain: 32-byte ids, number = first four bytes); `cid` is the injective,
+      number-preserving bridge.  `chain_of_history` is the Chain repository of a Bft import history: NewRepository, then
+      for every block that Bft.Model.import stores one AddBlock(conflicts as the guard assigns them, best := the answer of
+      Bft.Model.select — the very flag Bft's add_and_commit uses to move its best pointer); refused imports (known /
+      parent missing / refused by Accepts) do nothing.  For every history whose stored blocks satisfy the header rules
+      (`history_ok`: height = parent's + 1, total score strictly above the parent's, number < 2^32-1), that repository is
+      `reachable … tip_rule` (the premise of 4/5 holds of every AddBlock, by 6), it stores exactly the image of the
+      Bft repository, and its best block is the Bft node's best block. *)
+Theorem bft_history_refines_chain c guard g master gp tag bs :
+  0 < Bft.Model.c_L c -> Bft.Tree.b_num g = 0 ->
+  Compose.TipRefine.history_ok guard c (Bft.Model.init_node g master) bs ->
+  let nd := Bft.ProofsNode.import_all c guard (Bft.Model.init_node g master) bs in
+  let r := Compose.TipRefine.chain_of_history guard c g master gp tag bs in
+  num_of (Compose.TipRefine.cid (Bft.Tree.b_id g)) = 0 /\
+  reachable (Compose.TipRefine.cid (Bft.Tree.b_id g)) gp tag tip_rule r /\
+  (forall x, stored r x <->
+             exists id, Bft.Tree.known (Bft.Model.n_repo nd) id = true /\ x = Compose.TipRefine.cid id) /\
+  r_best r = Compose.TipRefine.cid (Bft.Model.n_best nd) /\
+  Bft.ProofsNode.inv c nd.
+Proof. exact (Compose.TipRefine.bft_history_refines_chain c guard g master gp tag bs). Qed.
+
+(* 7a. the bridge and the per-block premises are what they are said to be *)
+Theorem cid_is_number_preserving_injection :
+  (forall id, num_of (Compose.TipRefine.cid id) = Bft.Tree.idnum id) /\
+  (forall a b, Compose.TipRefine.cid a = Compose.TipRefine.cid b -> a = b).
+Proof. exact (conj Compose.TipRefine.cid_num Compose.TipRefine.cid_inj). Qed.
+
+(* 7b. the premises stated once on the block tree the history is drawn from (any order, duplicates, orphans) *)
+Theorem bft_tree_history_refines_chain c guard g master gp tag bs :
+  0 < Bft.Model.c_L c -> Bft.Tree.b_num g = 0 ->
+  ((forall b p, In b bs -> In p (g :: bs) -> Bft.Tree.b_id p = Bft.Tree.b_parent b ->
+                Bft.Tree.b_num b = Bft.Tree.b_num p + 1 /\ Bft.Tree.b_score p < Bft.Tree.b_score b) /\
+   (forall b, In b bs -> Bft.Tree.b_num b < max_u32)) ->
+  let nd := Bft.ProofsNode.import_all c guard (Bft.Model.init_node g master) bs in
+  let r := Compose.TipRefine.chain_of_history guard c g master gp tag bs in
+  num_of (Compose.TipRefine.cid (Bft.Tree.b_id g)) = 0 /\
+  reachable (Compose.TipRefine.cid (Bft.Tree.b_id g)) gp tag tip_rule r /\
+  (forall x, stored r x <->
+             exists id, Bft.Tree.known (Bft.Model.n_repo nd) id = true /\ x = Compose.TipRefine.cid id) /\
+  r_best r = Compose.TipRefine.cid (Bft.Model.n_best nd) /\
+  Bft.ProofsNode.inv c nd.
+Proof. exact (Compose.TipRefine.bft_tree_history_refines_chain c guard g master gp tag bs). Qed.
+
+(* 8. hence 4/5 without the premise, on the repository of every Bft import history: a subscriber starting at any stored
+      block with its path is a `sys` state; its reads never fail, the stream applies to its stack, a quiescent subscriber
+      holds the canonical chain, and it reaches the node's best block (Bft's n_best) within height(best)+1 reads *)
+Theorem reader_converges_on_bft_history c guard g master gp tag bs pos st :
+  0 < Bft.Model.c_L c -> Bft.Tree.b_num g = 0 ->
+  Compose.TipRefine.history_ok guard c (Bft.Model.init_node g master) bs ->
+  let nd := Bft.ProofsNode.import_all c guard (Bft.Model.init_node g master) bs in
+  let r := Compose.TipRefine.chain_of_history guard c g master gp tag bs in
+  is_path r pos st ->
+  sys (Compose.TipRefine.cid (Bft.Tree.b_id g)) gp tag r pos st /\
+  r_best r = Compose.TipRefine.cid (Bft.Model.n_best nd) /\
+  (exists l np st', read r pos = Ok (l, np) /\ apply_stream r st l = Some st' /\
+      (forall a, In (a, true) l -> anc r pos a /\ ~ anc r (r_best r) a) /\
+      (pos <> r_best r -> anc r (r_best r) np)) /\
+  (forall np, read r pos = Ok ([], np) -> pos = r_best r /\ is_path r (r_best r) st) /\
+  (exists k stB, (k <= N.to_nat (num_of (r_best r)) + 1)%nat /\
+                 run_reads r k pos st = Some (r_best r, stB) /\ is_path r (r_best r) stB).
+Proof. exact (Compose.TipRefine.reader_converges_on_bft_history c guard g master gp tag bs pos st). Qed.
+
+(* 8a. interleavings: the events of the Bft node model — imports, own proposals (proposeAndCommit), restarts; each stored
+       block satisfying the header rules — between the reads of a subscriber form a `sys` run of 4: every import /
+       proposal is a sys_add step obeying tip_rule or a no-op, a restart changes neither repository; the two
+       repositories stay in simulation; so 4's conclusions hold in every state of such a run *)
+Theorem bft_sys_refines c guard g master gp tag nd r pos st :
+  0 < Bft.Model.c_L c -> Bft.Tree.b_num g = 0 ->
+  Compose.TipRefine.bft_sys c guard g master gp tag nd r pos st ->
+  Compose.TipRefine.sim c (Bft.Tree.b_id g) gp tag nd r /\
+  sys (Compose.TipRefine.cid (Bft.Tree.b_id g)) gp tag r pos st.
+Proof. intros HL Hg. exact (Compose.TipRefine.bft_sys_refines c guard g master gp tag HL Hg nd r pos st). Qed.
+
+(* non-vacuity of 7/8: a Bft history with a fork, a duplicate, an orphan and a reorganisation satisfies all hypotheses *)
+Example ex_c14_bft_history :
+  (0 < Bft.Model.c_L Compose.TipRefine.ex_cfg /\ Bft.Tree.b_num Compose.TipRefine.ex_gen = 0 /\
+   Compose.TipRefine.tree_ok Compose.TipRefine.ex_gen Compose.TipRefine.ex_bs) /\
+  Bft.Model.n_best (Bft.ProofsNode.import_all Compose.TipRefine.ex_cfg true
+                      (Bft.Model.init_node Compose.TipRefine.ex_gen 7) Compose.TipRefine.ex_bs) = Bft.Tree.mkid 3 1 /\
+  r_best Compose.TipRefine.ex_repo = Compose.TipRefine.cid (Bft.Tree.mkid 3 1) /\
+  read Compose.TipRefine.ex_repo (Compose.TipRefine.cid (Bft.Tree.mkid 2 1)) =
+    Ok ([(Compose.TipRefine.cid (Bft.Tree.mkid 2 1), true); (Compose.TipRefine.cid (Bft.Tree.mkid 2 2), false)],
+        Compose.TipRefine.cid (Bft.Tree.mkid 2 2)).
+Proof. split; [exact Compose.TipRefine.ex_tree_ok|]. vm_compute. repeat split. Qed.
+
 Print Assumptions index_is_ancestry.
 Print Assumptions index_total.
 Print Assumptions has_block_is_membership.
@@ -183,3 +271,8 @@ Print Assumptions conflicts_are_blocks_of_height.
 Print Assumptions tip_rule_from_fork_choice.
 Print Assumptions reader_converges.
 Print Assumptions reader_reaches_best.
+Print Assumptions bft_history_refines_chain.
+Print Assumptions cid_is_number_preserving_injection.
+Print Assumptions bft_tree_history_refines_chain.
+Print Assumptions reader_converges_on_bft_history.
+Print Assumptions bft_sys_refines.
